@@ -98,6 +98,25 @@ def regenerate_tables():
     return None
 
 
+def code_drift():
+    """functions / declaration blocks of the modelled Go packages whose normalised source differs from the
+    inventory recorded for the tree the model was written against (model_inventory.json); [] on that tree.
+    A drift is not a violation: it makes the quick tier look harder (Check.size)."""
+    inv_path = os.path.join(VERIF, "model_inventory.json")
+    if not os.path.exists(inv_path):
+        return []
+    r = subprocess.run(["go", "run", ".", REPO, "--funcs"], cwd=os.path.join(VERIF, "extract"), env=GOENV,
+                       stdout=subprocess.PIPE, stderr=subprocess.PIPE, text=True)
+    if r.returncode != 0:
+        return ["<extractor failed: %s>" % r.stderr[-200:]]
+    try:
+        cur = json.loads(r.stdout)
+        ref = json.load(open(inv_path))
+    except Exception as e:
+        return ["<inventory unreadable: %s>" % e]
+    return sorted(k for k in set(cur) | set(ref) if cur.get(k) != ref.get(k))
+
+
 def build_lean(targets=None):
     """lake build (incremental). Returns (ok, log)."""
     cmd = ["lake", "build"] + (targets or [])
